@@ -4,7 +4,23 @@ import io
 import contextlib
 import logging
 
+import json
+import os
+import sys
+
 logging.disable(logging.CRITICAL)
+
+# floogen prints to stdout on some error paths (RouteMap.pprint); keep the worker protocol clean
+_REAL_STDOUT = sys.stdout
+sys.stdout = open(os.devnull, "w")
+
+
+def emit(obj):
+    _REAL_STDOUT.write(json.dumps(obj) + "\n")
+
+
+def flush():
+    _REAL_STDOUT.flush()
 
 
 def generate(desc, want_objects=False):
